@@ -6,6 +6,7 @@ from collections.abc import Sequence
 from types import EllipsisType
 from typing import Any
 
+from pydiverse.transform._internal.errors import DataTypeError
 from pydiverse.transform._internal.tree import types
 from pydiverse.transform._internal.tree.types import Dtype, Tyvar
 
@@ -121,7 +122,12 @@ def best_signature_match(sig: Sequence[Dtype], candidates: Sequence[Sequence[Dty
             best_index = i + 1
             best_distance = this_distance
 
-    assert sum(int(best_distance == sig_distance(sig, match)) for match in candidates) == 1
+    if sum(int(best_distance == sig_distance(sig, match)) for match in candidates) != 1:
+        # Happens for untyped nulls, which convert to every type at the same cost.
+        raise DataTypeError(
+            f"ambiguous call: arguments of type {', '.join(str(t) for t in sig)} match several signatures equally "
+            "well\nhint: give null literals an explicit type, e.g. `pdt.lit(None, pdt.Int64)`."
+        )
     return best_index
 
 
